@@ -113,26 +113,26 @@ Proof.
     + unfold zlen in *. rewrite zupd_length. assumption.
 Qed.
 
-(* ---------- Kraft weight of a set of symbols: sum 2^(17 - size) ---------- *)
-Definition kraft (cs : list Z) (l : list Z) : Z := zsum (map (fun x => 2 ^ (17 - znth cs x 0)) l).
+(* ---------- Kraft weight of a set of symbols: sum 2^(K - size) ---------- *)
+Definition kraft (K : Z) (cs : list Z) (l : list Z) : Z := zsum (map (fun x => 2 ^ (K - znth cs x 0)) l).
 
-Lemma kraft_app : forall cs a b, kraft cs (a ++ b) = kraft cs a + kraft cs b.
+Lemma kraft_app : forall K cs a b, kraft K cs (a ++ b) = kraft K cs a + kraft K cs b.
 Proof.
   intros. unfold kraft, zsum. rewrite map_app, fold_right_app.
-  induction (map (fun x => 2 ^ (17 - znth cs x 0)) a); cbn [fold_right]; lia.
+  induction (map (fun x => 2 ^ (K - znth cs x 0)) a); cbn [fold_right]; lia.
 Qed.
-Lemma kraft_ext : forall cs cs' l, (forall x, In x l -> znth cs' x 0 = znth cs x 0) -> kraft cs' l = kraft cs l.
+Lemma kraft_ext : forall K cs cs' l, (forall x, In x l -> znth cs' x 0 = znth cs x 0) -> kraft K cs' l = kraft K cs l.
 Proof.
-  intros cs cs' l H. unfold kraft. f_equal. apply map_ext_in. intros x Hx. rewrite H by assumption. reflexivity.
+  intros K cs cs' l H. unfold kraft. f_equal. apply map_ext_in. intros x Hx. rewrite H by assumption. reflexivity.
 Qed.
-Lemma kraft_incr : forall cs cs' l, (forall x, In x l -> znth cs' x 0 = znth cs x 0 + 1 /\ znth cs x 0 <= 16) ->
-  2 * kraft cs' l = kraft cs l.
+Lemma kraft_incr : forall K cs cs' l, (forall x, In x l -> znth cs' x 0 = znth cs x 0 + 1 /\ znth cs x 0 <= K - 1) ->
+  2 * kraft K cs' l = kraft K cs l.
 Proof.
-  intros cs cs' l. induction l as [|x l IH]; intros H; [reflexivity|].
-  unfold kraft in *. cbn [map zsum fold_right]. fold (zsum (map (fun x0 : Z => 2 ^ (17 - znth cs' x0 0)) l)).
-  fold (zsum (map (fun x0 : Z => 2 ^ (17 - znth cs x0 0)) l)).
+  intros K cs cs' l. induction l as [|x l IH]; intros H; [reflexivity|].
+  unfold kraft in *. cbn [map zsum fold_right]. fold (zsum (map (fun x0 : Z => 2 ^ (K - znth cs' x0 0)) l)).
+  fold (zsum (map (fun x0 : Z => 2 ^ (K - znth cs x0 0)) l)).
   destruct (H x (or_introl eq_refl)) as [E Hb]. rewrite E.
-  replace (17 - znth cs x 0) with (1 + (17 - (znth cs x 0 + 1))) by lia. rewrite Z.pow_add_r by lia.
+  replace (K - znth cs x 0) with (1 + (K - (znth cs x 0 + 1))) by lia. rewrite Z.pow_add_r by lia.
   change (2 ^ 1) with 2.
   specialize (IH (fun y Hy => H y (or_intror Hy))). lia.
 Qed.
@@ -195,15 +195,15 @@ Proof.
 Qed.
 
 (* ---------- the forest invariant of the merge loop ---------- *)
-Definition chain_ok (freq cs others : list Z) (ch : list Z) : Prop :=
+Definition chain_ok (K : Z) (freq cs others : list Z) (ch : list Z) : Prop :=
   chain_of others (hd 0 ch) ch /\ 0 < znth freq (hd 0 ch) 0 /\
-  Forall (fun x => znth freq x 0 = 0) (tl ch) /\ kraft cs ch = 2 ^ 17.
+  Forall (fun x => znth freq x 0 = 0) (tl ch) /\ kraft K cs ch = 2 ^ K.
 
-Record inv (E0 : list Z) (freq cs others : list Z) (forest : list (list Z)) (m A T : Z) : Prop := {
+Record inv (K : Z) (E0 : list Z) (freq cs others : list Z) (forest : list (list Z)) (m A T : Z) : Prop := {
   i_elems : forall s, In s E0 <-> In s (concat forest);
   i_len : zlen freq = NS /\ zlen cs = NS /\ zlen others = NS;
   i_nodup : NoDup (concat forest);
-  i_chains : Forall (chain_ok freq cs others) forest;
+  i_chains : Forall (chain_ok K freq cs others) forest;
   i_out : forall s, 0 <= s < NS -> ~ In s (concat forest) -> znth freq s 0 = 0 /\ znth cs s 0 = 0;
   i_cs : forall s, 0 <= s < NS -> 0 <= znth cs s 0 <= m;
   i_cnt : m + zlen forest = A;
@@ -218,10 +218,10 @@ Proof.
   - eapply Permutation_trans; eassumption.
 Qed.
 
-Lemma inv_perm : forall E0 freq cs others forest forest' m A T, Permutation forest forest' ->
-  inv E0 freq cs others forest m A T -> inv E0 freq cs others forest' m A T.
+Lemma inv_perm : forall K E0 freq cs others forest forest' m A T, Permutation forest forest' ->
+  inv K E0 freq cs others forest m A T -> inv K E0 freq cs others forest' m A T.
 Proof.
-  intros E0 freq cs others forest forest' m A T Hp [H0 H1 H2 H3 H4 H5 H6 H7].
+  intros K E0 freq cs others forest forest' m A T Hp [H0 H1 H2 H3 H4 H5 H6 H7].
   pose proof (Permutation_concat' _ _ Hp) as Hpc.
   constructor; try assumption.
   - intros s. rewrite H0. split; intros Hin; [eapply Permutation_in; eassumption | eapply Permutation_in; [symmetry|]; eassumption].
@@ -232,17 +232,17 @@ Proof.
 Qed.
 
 (* a symbol with a non-zero frequency is the head of a tree *)
-Lemma nonzero_is_head : forall E0 freq cs others forest m A T s, inv E0 freq cs others forest m A T ->
+Lemma nonzero_is_head : forall K E0 freq cs others forest m A T s, inv K E0 freq cs others forest m A T ->
   0 <= s < NS -> znth freq s 0 <> 0 -> exists ch, In ch forest /\ hd 0 ch = s.
 Proof.
-  intros E0 freq cs others forest m A T s I Hs Hnz.
+  intros K E0 freq cs others forest m A T s I Hs Hnz.
   destruct (in_dec Z.eq_dec s (concat forest)) as [Hin|Hnin].
   - apply in_concat in Hin. destruct Hin as (ch & Hch & Hs').
     exists ch. split; [assumption|].
-    pose proof (proj1 (Forall_forall _ _) (i_chains _ _ _ _ _ _ _ _ I) ch Hch) as (Hc & _ & Ht & _).
+    pose proof (proj1 (Forall_forall _ _) (i_chains _ _ _ _ _ _ _ _ _ I) ch Hch) as (Hc & _ & Ht & _).
     destruct (chain_hd _ _ _ Hc) as [_ Hne]. destruct ch as [|x t]; [contradiction|]. cbn [hd tl] in *.
     destruct Hs' as [E|Hs']; [assumption|]. exfalso. apply Hnz. apply (proj1 (Forall_forall _ _) Ht). assumption.
-  - exfalso. apply Hnz. apply (i_out _ _ _ _ _ _ _ _ I s Hs Hnin).
+  - exfalso. apply Hnz. apply (i_out _ _ _ _ _ _ _ _ _ I s Hs Hnin).
 Qed.
 
 Lemma in_perm_front : forall (x : list Z) l, In x l -> exists r, Permutation l (x :: r).
@@ -301,17 +301,17 @@ Proof.
     + intros y [E|Hy] Hyb; [subst; apply Hn; apply in_or_app; right; exact Hyb | exact (Hd y Hy Hyb)].
 Qed.
 
-Lemma merge_step : forall E0 freq cs others A B rest m AA T,
-  inv E0 freq cs others (A :: B :: rest) m AA T -> AA <= 18 -> T < 2 ^ 64 ->
+Lemma merge_step : forall K E0 freq cs others A B rest m AA T,
+  inv K E0 freq cs others (A :: B :: rest) m AA T -> AA <= K + 1 -> T < 2 ^ 64 ->
   let c1 := hd 0 A in
   let c2 := hd 0 B in
   incr_chain 257 cs others c1 = Some (incr_all cs A) /\
   last_branch 257 others c1 = Some (last A c1) /\
   incr_chain 257 (incr_all cs A) (zupd others (last A c1) c2) c2 = Some (incr_all (incr_all cs A) B) /\
-  inv E0 (zupd (zupd freq c1 (wrapU 64 (znth freq c1 0 + znth freq c2 0))) c2 0)
+  inv K E0 (zupd (zupd freq c1 (wrapU 64 (znth freq c1 0 + znth freq c2 0))) c2 0)
       (incr_all (incr_all cs A) B) (zupd others (last A c1) c2) ((A ++ B) :: rest) (m + 1) AA T.
 Proof.
-  intros E0 freq cs others A B rest m AA T [Hel [L1 [L2 L3]] Hnd Hch Hout Hcs Hcnt [Hf0 HfT]] HAA HT c1 c2.
+  intros K E0 freq cs others A B rest m AA T [Hel [L1 [L2 L3]] Hnd Hch Hout Hcs Hcnt [Hf0 HfT]] HAA HT c1 c2.
   pose proof (Forall_inv Hch) as [HcA [HfA [HtA HkA]]]. pose proof (Forall_inv_tail Hch) as Hch'.
   pose proof (Forall_inv Hch') as [HcB [HfB [HtB HkB]]]. pose proof (Forall_inv_tail Hch') as Hrest.
   fold c1 in HcA, HfA. fold c2 in HcB, HfB.
@@ -367,7 +367,7 @@ Proof.
     - unfold cs1, zlen in *. rewrite incr_all_length. pose proof (proj1 (Forall_forall _ _) HrB x Hx) as Hxr. cbv beta in Hxr. lia. }
   assert (Hcs2_other : forall x, ~ In x A -> ~ In x B -> znth cs2 x 0 = znth cs x 0).
   { intros x H1 H2. unfold cs2, cs1. rewrite !incr_all_notin by assumption. reflexivity. }
-  assert (Hm16 : m <= 16).
+  assert (Hm16 : m <= K - 1).
   { unfold zlen in Hcnt. cbn [length] in Hcnt. lia. }
   constructor.
   - intros s. rewrite Hel. cbn [concat]. rewrite <- app_assoc. reflexivity.
@@ -394,13 +394,13 @@ Proof.
               destruct Hx as [E|Hx]; [subst; contradiction | exact Hx].
            ++ intros E. subst x. apply (HdAB c1 Hc1A). apply in_or_app. left. exact Hx.
       * rewrite kraft_app.
-        assert (HA2 : 2 * kraft cs2 A = kraft cs A).
+        assert (HA2 : 2 * kraft K cs2 A = kraft K cs A).
         { apply kraft_incr. intros x Hx. split; [apply Hcs2_A; assumption|].
           pose proof (Hcs x ltac:(apply (proj1 (Forall_forall _ _) HrA); assumption)). lia. }
-        assert (HB2 : 2 * kraft cs2 B = kraft cs B).
+        assert (HB2 : 2 * kraft K cs2 B = kraft K cs B).
         { apply kraft_incr. intros x Hx. split; [apply Hcs2_B; assumption|].
           pose proof (Hcs x ltac:(apply (proj1 (Forall_forall _ _) HrB); assumption)). lia. }
-        change (2 ^ 17) with 131072 in *. lia.
+        lia.
     + (* the other trees are untouched *)
       apply Forall_forall. intros C HC.
       pose proof (proj1 (Forall_forall _ _) Hrest C HC) as (HcC & HfC & HtC & HkC).
@@ -446,53 +446,53 @@ Proof.
 Qed.
 
 (* ---------- the merge loop ---------- *)
-Lemma head_facts : forall E0 freq cs others forest m A T C, inv E0 freq cs others forest m A T ->
+Lemma head_facts : forall K E0 freq cs others forest m A T C, inv K E0 freq cs others forest m A T ->
   In C forest -> 0 <= hd 0 C < 257 /\ znth freq (hd 0 C) 0 <> 0 /\ In (hd 0 C) C.
 Proof.
-  intros E0 freq cs others forest m A T C I HC.
-  pose proof (proj1 (Forall_forall _ _) (i_chains _ _ _ _ _ _ _ _ I) C HC) as (Hc & Hf & _ & _).
+  intros K E0 freq cs others forest m A T C I HC.
+  pose proof (proj1 (Forall_forall _ _) (i_chains _ _ _ _ _ _ _ _ _ I) C HC) as (Hc & Hf & _ & _).
   destruct (chain_hd _ _ _ Hc) as [_ Hne].
   assert (Hin : In (hd 0 C) C) by (destruct C; [contradiction | left; reflexivity]).
   pose proof (proj1 (Forall_forall _ _) (chain_range _ _ _ Hc) _ Hin) as Hr. cbv beta in Hr.
   repeat split; try lia; assumption.
 Qed.
 
-Lemma merge_loop_ok : forall fuel E0 freq cs others forest m AA T,
-  inv E0 freq cs others forest m AA T -> AA <= 18 -> T < 2 ^ 64 -> forest <> [] ->
+Lemma merge_loop_ok : forall fuel K E0 freq cs others forest m AA T,
+  inv K E0 freq cs others forest m AA T -> AA <= K + 1 -> T < 2 ^ 64 -> forest <> [] ->
   (length forest <= fuel)%nat ->
   exists cs' freq' others' ch,
-    merge_loop fuel freq cs others = Ok cs' /\ inv E0 freq' cs' others' [ch] (AA - 1) AA T.
+    merge_loop fuel freq cs others = Ok cs' /\ inv K E0 freq' cs' others' [ch] (AA - 1) AA T.
 Proof.
-  induction fuel as [|fuel IH]; intros E0 freq cs others forest m AA T I HAA HT Hne Hfuel.
+  induction fuel as [|fuel IH]; intros K E0 freq cs others forest m AA T I HAA HT Hne Hfuel.
   - destruct forest; [contradiction | simpl in Hfuel; lia].
   - destruct forest as [|C0 forest0]; [contradiction|].
-    destruct (head_facts _ _ _ _ _ _ _ _ C0 I (or_introl eq_refl)) as (Hh0r & Hh0f & Hh0in).
-    pose proof (i_len _ _ _ _ _ _ _ _ I) as (L1 & L2 & L3).
+    destruct (head_facts _ _ _ _ _ _ _ _ _ C0 I (or_introl eq_refl)) as (Hh0r & Hh0f & Hh0in).
+    pose proof (i_len _ _ _ _ _ _ _ _ _ I) as (L1 & L2 & L3).
     cbn [merge_loop].
     (* c1 *)
     destruct (smallest_sym_spec freq (-1)) as [[_ Hall]|(Hc1r & Hc1f & _)].
     { exfalso. destruct (Hall (hd 0 C0) ltac:(lia)) as [E|E]; [contradiction | lia]. }
     set (c1 := smallest_sym freq (-1)) in *.
-    destruct (nonzero_is_head _ _ _ _ _ _ _ _ c1 I ltac:(lia) Hc1f) as (A & HA & HhA).
+    destruct (nonzero_is_head _ _ _ _ _ _ _ _ _ c1 I ltac:(lia) Hc1f) as (A & HA & HhA).
     (* c2 *)
     destruct (smallest_sym_spec freq c1) as [[Hc2neg Hall]|(Hc2r & Hc2f & Hc2ne)].
     + (* a single tree is left *)
       destruct (Z.ltb_spec (smallest_sym freq c1) 0); [|lia].
       assert (Hsingle : forest0 = []).
       { destruct forest0 as [|C1 forest1]; [reflexivity|]. exfalso.
-        destruct (head_facts _ _ _ _ _ _ _ _ C1 I (or_intror (or_introl eq_refl))) as (Hh1r & Hh1f & Hh1in).
+        destruct (head_facts _ _ _ _ _ _ _ _ _ C1 I (or_intror (or_introl eq_refl))) as (Hh1r & Hh1f & Hh1in).
         destruct (Hall (hd 0 C0) ltac:(lia)) as [E|E0']; [contradiction|].
         destruct (Hall (hd 0 C1) ltac:(lia)) as [E|E1']; [contradiction|].
-        pose proof (i_nodup _ _ _ _ _ _ _ _ I) as Hnd. cbn [concat] in Hnd.
+        pose proof (i_nodup _ _ _ _ _ _ _ _ _ I) as Hnd. cbn [concat] in Hnd.
         destruct (nodup_app_inv _ _ Hnd) as (_ & _ & Hd).
         apply (Hd (hd 0 C0) Hh0in). apply in_or_app. left. rewrite E0', <- E1'. exact Hh1in. }
       subst forest0. exists cs, freq, others, C0. split; [reflexivity|].
-      pose proof (i_cnt _ _ _ _ _ _ _ _ I) as Hcnt. unfold zlen in Hcnt. cbn [length] in Hcnt.
+      pose proof (i_cnt _ _ _ _ _ _ _ _ _ I) as Hcnt. unfold zlen in Hcnt. cbn [length] in Hcnt.
       replace (AA - 1) with m by lia. exact I.
     + (* merge the trees of c1 and c2 *)
       set (c2 := smallest_sym freq c1) in *.
       destruct (Z.ltb_spec c2 0); [lia|]. destruct (Z.ltb_spec c1 0); [lia|].
-      destruct (nonzero_is_head _ _ _ _ _ _ _ _ c2 I ltac:(lia) Hc2f) as (B & HB & HhB).
+      destruct (nonzero_is_head _ _ _ _ _ _ _ _ _ c2 I ltac:(lia) Hc2f) as (B & HB & HhB).
       assert (HAB : A <> B) by (intros E; subst B; lia).
       destruct (in_perm_front A _ HA) as (r1 & Hp1).
       assert (HB1 : In B r1).
@@ -500,12 +500,12 @@ Proof.
       destruct (in_perm_front B _ HB1) as (rest & Hp2).
       assert (Hp : Permutation (C0 :: forest0) (A :: B :: rest)).
       { eapply Permutation_trans; [exact Hp1|]. apply perm_skip. exact Hp2. }
-      pose proof (inv_perm _ _ _ _ _ _ _ _ _ Hp I) as I'.
-      destruct (merge_step _ _ _ _ A B rest m AA T I' HAA HT) as (E1 & E2 & E3 & I2).
+      pose proof (inv_perm _ _ _ _ _ _ _ _ _ _ Hp I) as I'.
+      destruct (merge_step _ _ _ _ _ A B rest m AA T I' HAA HT) as (E1 & E2 & E3 & I2).
       rewrite HhA in E1, E2, E3, I2. rewrite HhB in E3, I2.
       assert (Hlo : length others = 257%nat) by (unfold zlen in L3; lia).
       rewrite Hlo. rewrite E1, E2, E3.
-      apply (IH E0 _ _ _ ((A ++ B) :: rest) (m + 1) AA T I2 HAA HT); [discriminate|].
+      apply (IH K E0 _ _ _ ((A ++ B) :: rest) (m + 1) AA T I2 HAA HT); [discriminate|].
       pose proof (Permutation_length Hp) as Hl. cbn [length] in *. lia.
 Qed.
 
@@ -539,12 +539,18 @@ Definition freqs_ok (freqs : list Z) : Prop :=
   length freqs = 256%nat /\ Forall (fun v => 0 <= v) freqs /\
   (forall i, 17 <= i < 256 -> znth freqs i 0 = 0) /\ zsum freqs < 2 ^ 63.
 
-Lemma freq0_facts : forall freqs, freqs_ok freqs ->
+(* any 256 non-negative counters whose sum does not overflow *)
+Definition freqs_gen (freqs : list Z) : Prop :=
+  length freqs = 256%nat /\ Forall (fun v => 0 <= v) freqs /\ zsum freqs < 2 ^ 63.
+Lemma freqs_ok_gen : forall freqs, freqs_ok freqs -> freqs_gen freqs.
+Proof. intros freqs (H1 & H2 & _ & H4). repeat split; assumption. Qed.
+
+Lemma freq0_facts : forall freqs, freqs_gen freqs ->
   zlen (freq0 freqs) = 257 /\ Forall (fun v => 0 <= v) (freq0 freqs) /\
   zsum (freq0 freqs) < 2 ^ 64 /\ znth (freq0 freqs) 256 0 = 1 /\
   (forall i, 0 <= i < 256 -> znth (freq0 freqs) i 0 = znth freqs i 0).
 Proof.
-  intros freqs (Hl & Hnn & Hz & Hs). unfold freq0. rewrite firstn_all2 by lia.
+  intros freqs (Hl & Hnn & Hs). unfold freq0. rewrite firstn_all2 by lia.
   repeat split.
   - unfold zlen. rewrite app_length, Hl. reflexivity.
   - apply Forall_app. split; [assumption | repeat constructor; lia].
@@ -555,18 +561,27 @@ Proof.
   - intros i Hi. unfold znth. destruct (Z.ltb_spec i 0); [lia|]. apply app_nth1. lia.
 Qed.
 
-Lemma init_inv : forall freqs, freqs_ok freqs ->
-  inv (alive0 freqs) (freq0 freqs) (repeat 0 257) (repeat (-1) 257) (map (fun s => [s]) (alive0 freqs)) 0
-      (zlen (alive0 freqs)) (zsum (freq0 freqs))
-  /\ zlen (alive0 freqs) <= 18 /\ In 256 (alive0 freqs).
+Lemma alive0_spec : forall freqs s,
+  In s (alive0 freqs) <-> 0 <= s < 257 /\ znth (freq0 freqs) s 0 <> 0.
 Proof.
-  intros freqs Hok. set (E0 := alive0 freqs). destruct (freq0_facts freqs Hok) as (Hl & Hnn & Hs & H256 & Hlow).
+  intros freqs s. unfold alive0. rewrite filter_In. split.
+  - intros [Hin Hb]. apply In_seqZ_inv in Hin. apply negb_true_iff, Z.eqb_neq in Hb. split; [lia | assumption].
+  - intros [Hr Hb]. split; [apply In_seqZ; lia | apply negb_true_iff, Z.eqb_neq; assumption].
+Qed.
+Lemma alive0_nodup : forall freqs, NoDup (alive0 freqs).
+Proof. intros. apply NoDup_filter, NoDup_seqZ. Qed.
+Lemma init_inv : forall K freqs, 0 <= K -> freqs_gen freqs ->
+  inv K (alive0 freqs) (freq0 freqs) (repeat 0 257) (repeat (-1) 257) (map (fun s => [s]) (alive0 freqs)) 0
+      (zlen (alive0 freqs)) (zsum (freq0 freqs))
+  /\ In 256 (alive0 freqs).
+Proof.
+  intros K freqs HK Hok. set (E0 := alive0 freqs). destruct (freq0_facts freqs Hok) as (Hl & Hnn & Hs & H256 & Hlow).
   assert (HE0 : forall s, In s E0 <-> 0 <= s < 257 /\ znth (freq0 freqs) s 0 <> 0).
   { intros s. unfold E0, alive0. rewrite filter_In. split.
     - intros [Hin Hb]. apply In_seqZ_inv in Hin. apply negb_true_iff, Z.eqb_neq in Hb. split; [lia | assumption].
     - intros [Hr Hb]. split; [apply In_seqZ; lia | apply negb_true_iff, Z.eqb_neq; assumption]. }
   assert (HndE0 : NoDup E0) by (apply NoDup_filter, NoDup_seqZ).
-  split; [|split].
+  split.
   - constructor.
     + intros s. rewrite concat_singletons. reflexivity.
     + split; [assumption|]. split; unfold zlen; rewrite repeat_length; reflexivity.
@@ -579,21 +594,32 @@ Proof.
         { unfold znth. destruct (Z.ltb_spec s 0); [lia|]. apply nth_In. unfold zlen in Hl. lia. }
         specialize (Hge H). cbv beta in Hge. lia.
       * constructor.
-      * unfold kraft. cbn [map zsum fold_right]. rewrite znth_repeat by lia. reflexivity.
+      * unfold kraft. cbn [map zsum fold_right]. rewrite znth_repeat by lia. rewrite Z.sub_0_r. lia.
     + intros s Hs' Hn. rewrite concat_singletons in Hn. split; [|apply znth_repeat; lia].
       destruct (Z.eq_dec (znth (freq0 freqs) s 0) 0) as [E|E]; [assumption|]. exfalso. apply Hn. apply HE0. split; assumption.
     + intros s Hs'. rewrite znth_repeat by lia. lia.
     + unfold zlen. rewrite map_length. lia.
     + split; [assumption | reflexivity].
-  - (* at most 18 symbols are alive: the categories 0..16 and the pseudo-symbol *)
-    unfold zlen.
-    assert (Hincl : incl E0 (seqZ 0 17 ++ [256])).
-    { intros s Hs'. apply HE0 in Hs'. destruct Hs' as [Hr Hnz]. apply in_or_app.
-      destruct (Z_lt_le_dec s 17); [left; apply In_seqZ; lia|].
-      destruct (Z.eq_dec s 256); [right; left; lia|]. exfalso. apply Hnz.
-      rewrite Hlow by lia. destruct Hok as (_ & _ & Hz & _). apply Hz. lia. }
-    pose proof (NoDup_incl_length HndE0 Hincl) as Hle. rewrite app_length, seqZ_length in Hle. cbn [length] in Hle. lia.
   - apply HE0. split; [lia|]. rewrite H256. lia.
+Qed.
+
+Lemma filter_len_le : forall {A} (p : A -> bool) l, (length (filter p l) <= length l)%nat.
+Proof. induction l; [apply Nat.le_refl|]. cbn [filter]. destruct (p a); cbn [length]; lia. Qed.
+Lemma alive0_le257 : forall freqs, (length (alive0 freqs) <= length (seqZ 0 257))%nat.
+Proof. intros. unfold alive0. apply filter_len_le. Qed.
+
+(* at most 18 symbols are alive when only the categories 0..16 are counted *)
+Lemma alive0_le18 : forall freqs, freqs_ok freqs -> zlen (alive0 freqs) <= 18.
+Proof.
+  intros freqs Hok. destruct (freq0_facts freqs (freqs_ok_gen _ Hok)) as (Hl & Hnn & Hs & H256 & Hlow).
+  pose proof (alive0_nodup freqs) as HndE0. pose proof (alive0_spec freqs) as HE0.
+  assert (Hincl : incl (alive0 freqs) (seqZ 0 17 ++ [256])).
+  { intros s Hs'. apply HE0 in Hs'. destruct Hs' as [Hr Hnz]. apply in_or_app.
+    destruct (Z_lt_le_dec s 17); [left; apply In_seqZ; lia|].
+    destruct (Z.eq_dec s 256); [right; left; lia|]. exfalso. apply Hnz.
+    rewrite Hlow by lia. destruct Hok as (_ & _ & Hz & _). apply Hz. lia. }
+  pose proof (NoDup_incl_length HndE0 Hincl) as Hle. rewrite app_length, seqZ_length in Hle. cbn [length] in Hle.
+  unfold zlen. lia.
 Qed.
 
 (* ---------- the code sizes the merge loop returns ---------- *)
@@ -663,27 +689,19 @@ Lemma filter_map_length : forall {A B} (p : B -> bool) (f : A -> B) l,
   length (filter p (map f l)) = length (filter (fun x => p (f x)) l).
 Proof. induction l; [reflexivity|]. cbn [map filter]. destruct (p (f a)); cbn [length]; rewrite IHl; reflexivity. Qed.
 
-Lemma alive0_spec : forall freqs s,
-  In s (alive0 freqs) <-> 0 <= s < 257 /\ znth (freq0 freqs) s 0 <> 0.
-Proof.
-  intros freqs s. unfold alive0. rewrite filter_In. split.
-  - intros [Hin Hb]. apply In_seqZ_inv in Hin. apply negb_true_iff, Z.eqb_neq in Hb. split; [lia | assumption].
-  - intros [Hr Hb]. split; [apply In_seqZ; lia | apply negb_true_iff, Z.eqb_neq; assumption].
-Qed.
-Lemma alive0_nodup : forall freqs, NoDup (alive0 freqs).
-Proof. intros. apply NoDup_filter, NoDup_seqZ. Qed.
 Opaque alive0.
 Theorem merge_result : forall freqs, freqs_ok freqs ->
   (exists i, 0 <= i < 256 /\ znth freqs i 0 <> 0) ->
   exists cs, merge_loop 258 (freq0 freqs) (repeat 0 257) (repeat (-1) 257) = Ok cs /\ sizes_ok cs freqs.
 Proof.
   intros freqs Hok (i0 & Hi0 & Hnz0).
-  destruct (init_inv freqs Hok) as (I0 & HA & H256).
-  destruct (freq0_facts freqs Hok) as (Hl & Hnn & Hs & Hf256 & Hlow).
+  destruct (init_inv 17 freqs ltac:(lia) (freqs_ok_gen _ Hok)) as (I0 & H256).
+  pose proof (alive0_le18 freqs Hok) as HA.
+  destruct (freq0_facts freqs (freqs_ok_gen _ Hok)) as (Hl & Hnn & Hs & Hf256 & Hlow).
   pose proof (alive0_spec freqs) as HE0.
   pose proof (alive0_nodup freqs) as HndE0.
   assert (Hi0E : In i0 (alive0 freqs)) by (apply HE0; split; [lia | rewrite Hlow by lia; assumption]).
-  destruct (merge_loop_ok 258 (alive0 freqs) _ _ _ _ 0 (zlen (alive0 freqs)) (zsum (freq0 freqs)) I0 HA Hs) as (cs & freq' & others' & ch & Eloop & If).
+  destruct (merge_loop_ok 258 17 (alive0 freqs) _ _ _ _ 0 (zlen (alive0 freqs)) (zsum (freq0 freqs)) I0 HA Hs) as (cs & freq' & others' & ch & Eloop & If).
   { intros E. apply map_eq_nil in E. rewrite E in H256. destruct H256. }
   { rewrite map_length. apply Nat.le_trans with 18%nat; [apply Nat2Z.inj_le; exact HA | apply Nat.leb_le; reflexivity]. }
   exists cs. split; [exact Eloop|]. clear Eloop I0.
@@ -739,4 +757,28 @@ Proof.
     pose proof (NoDup_incl_length (NoDup_filter _ (NoDup_seqZ 257 0)) Hincl). lia.
   - apply Hpos. apply Hel'. exact H256.
   - intros i Hi Hnz. apply Hpos. apply Hel'. apply HE0. split; [lia | rewrite Hlow by lia; assumption].
+Qed.
+
+(* ---------- for ANY 256 counters (sum < 2^63): the merge loop ends and no code size exceeds
+   256 = the number of merges a forest of 257 trees can undergo.  This is why bits[257] in
+   BuildOptimalHuffmanTable cannot be indexed out of range (finding F48 was bits[33]). ---------- *)
+Theorem merge_result_gen : forall freqs, freqs_gen freqs ->
+  exists cs, merge_loop 258 (freq0 freqs) (repeat 0 257) (repeat (-1) 257) = Ok cs /\
+             zlen cs = 257 /\ Forall (fun c => 0 <= c <= 256) cs.
+Proof.
+  intros freqs Hok.
+  destruct (init_inv 256 freqs ltac:(lia) Hok) as (I0 & H256).
+  destruct (freq0_facts freqs Hok) as (Hl & Hnn & Hs & Hf256 & Hlow).
+  pose proof (alive0_le257 freqs) as Hle. rewrite seqZ_length in Hle.
+  assert (HA : zlen (alive0 freqs) <= 256 + 1) by (apply (proj1 (Nat2Z.inj_le _ _)) in Hle; exact Hle).
+  destruct (merge_loop_ok 258 256 (alive0 freqs) _ _ _ _ 0 (zlen (alive0 freqs)) (zsum (freq0 freqs)) I0 HA Hs)
+    as (cs & freq' & others' & ch & Eloop & If).
+  { intros E. apply map_eq_nil in E. rewrite E in H256. destruct H256. }
+  { rewrite map_length. apply Nat.le_trans with 257%nat; [exact Hle | apply Nat.leb_le; reflexivity]. }
+  exists cs. split; [exact Eloop|]. clear Eloop I0.
+  destruct If as [_ [_ [L2 _]] _ _ _ Hcs _ _]. split; [exact L2|].
+  apply Forall_forall. intros c Hc. destruct (In_nth _ _ 0 Hc) as (k & Hk & <-).
+  assert (Hk' : 0 <= Z.of_nat k < 257) by (unfold zlen in L2; lia).
+  specialize (Hcs (Z.of_nat k) Hk'). unfold znth in Hcs.
+  destruct (Z.ltb_spec (Z.of_nat k) 0); [lia|]. rewrite Nat2Z.id in Hcs. lia.
 Qed.
